@@ -9,7 +9,7 @@ CHECKS = {
     # pid: (category, technique, level text, level note, design_ref)
     'C10': (OTHER, 'C tables read from source as exact polynomials (own reader) vs exact rational Bardell oracle; z3 LRA decides the deviation bound over the whole parameter box per entry (monomial abstraction); sat -> refine -> replay through gcc-built table',
             'Bounded symbolic verification, exhaustive over the finite index domain (30x30 pairs x 17 families, 3x30 functions, Gauss orders 2..64); for each entry the solver shows |table - exact integral| <= 1e-12*sum|coef| for all flags/limits in the box, or a concrete point is replayed against the compiled table.',
-            'Reals not doubles (literals read as stored doubles); tolerance 1e-12 relative to the coefficient sum; z3, CPython, own C-expression reader (cross-checked: worst measured deviation 4e-15) trusted.',
+            'Reals not doubles (literals read as stored doubles); tolerance 1e-12 relative to the coefficient sum; z3, CPython, own C-expression reader (cross-checked: worst measured deviation 4e-15) trusted. Supplementary, not deciding: the gcc-built function file evaluated through ctypes at five points including the interval ends (float twin); statements ahead of a table (declarations, assignments, index-conditional blocks, guarded returns) are interpreted, control flow on floating-point arguments is not (harness error).',
             'DESIGN.md section 4 C10'),
 }
 CHECKS['C02'] = (OTHER, 'symbolic execution of the real Panel.calc_k0 over de-Cythonised .pyx kernels (exact rational-function scalars) vs Donnell strain-energy Hessian oracle on shared integral atoms; z3 qfnra-nlsat decides each entry identity; sat -> exact-rational replay of the same code',
@@ -38,7 +38,7 @@ CHECKS['C09'] = ('model_checking', 'path-forking symbolic execution of the unmod
     'DESIGN.md section 4 C09')
 CHECKS['C11'] = (OTHER, 'symbolic execution of the real Panel.uvw/strain/stress over the de-Cythonised field kernels incl. the num_cores chunking wrappers (bounds-checked pointer views) vs series/Donnell/F*strain oracle on shared function atoms; z3 qfnra-nlsat per value; exact-rational replay; recorded findings characterised by a second obligation family',
     'Bounded symbolic verification for all amplitudes, evaluation points, flags, geometry: u,v,w, rotations, six strains (linear and von-Karman), six resultants for the NLterms requested, for every chunk count 1..3 (6) and point count 1..7 (13) incl. sizes not divisible by the chunk count; caller arrays unchanged; PanelAssembly.uvw/strain/stress per group (each member with its own slice, geometry, model and laminate, in assembly order) and StiffPanelBay skin / stiffener fields.',
-    'OpenMP scheduling not modelled (chunks sequential, disjointness checked); known finding F2 (quadratic terms) listed with a characterising obligation so that any other deviation is still reported.',
+    'OpenMP scheduling not modelled (chunks sequential, disjointness checked); known finding F2 (quadratic terms) listed with a characterising obligation so that any other deviation is still reported. Supplementary, not deciding: float twin on the compiled build for non-contiguous float64 amplitude vectors and point arrays against their contiguous copies.',
     'DESIGN.md section 4 C11')
 CHECKS['C19'] = (OTHER, 'symbolic execution of the real Panel.calc_kA/calc_cA (incl. make_skew_symmetric) over de-Cythonised fkAx/fkAy/fcA with exactly interpreted integral tables vs piston-theory bilinear-form oracle; Mach route with sqrt as constrained atom; axis-exchange relational obligation; z3 qfnra-nlsat; exact-rational replay',
     'Bounded symbolic verification for all beta, gamma, aeromu, Mach>1, density, speed, geometry and the edge flags other than the restrained w flags on the flow edges: every entry of both triangles equals beta*int(w_A dw_B/dflow) - gamma*int(w_A w_B); cA = -aeromu*int(w_A w_B)*i; w-w positions only; Mach route = explicit route; flow-y = flow-x on the exchanged panel.',
@@ -54,15 +54,15 @@ CHECKS['C14'] = ('translation_validation', 'relational symbolic execution: two e
     'DESIGN.md section 4 C14')
 CHECKS['C05'] = (OTHER, 'symbolic execution of the real analysis.lb / Panel.lb over symbolic matrices with ARPACK/LAPACK contract stubs, under a forking comparison policy (forksym); z3 proves residual, null-amplitude zeros and value/vector pairing per returned column and the ordering implications on every path; exceptions and ordering violations are replayed on the real function with scipy',
     'Bounded symbolic verification of the wrapper code (what compmech itself contributes): for sizes 5..7, every null pattern class, num_eigvalues 1..25, sparse / null-column fallback / dense paths: (K+lambda KG)v=0 on the full size under the solver contract, zeros on null amplitudes, smallest positive multiplier first and ascending positives under the ascending-mu contract, no exception for admissible inputs; KG with entries beyond the support of K; ConeCyl.lb incl. the real _calc_linear_matrices load split per combined_load_case over linear contract kernels.',
-    'ARPACK/LAPACK numerics are contract stubs (that ARPACK returns the multipliers nearest 1 first, convergence, agreement of the numerical paths are outside); ConeCyl.lb outside; sizes concrete.',
+    'ARPACK/LAPACK numerics are contract stubs (that ARPACK returns the multipliers nearest 1 first, convergence, agreement of the numerical paths are outside); ConeCyl.lb outside; sizes concrete. Supplementary, not deciding: one float run of every wrapper configuration on the real compiled route (float twin; sees branches on dtype / typed fast paths that dtype=object arrays never take).',
     'DESIGN.md section 4 C05')
 CHECKS['C06'] = (OTHER, 'symbolic execution of the real analysis.freq / Panel.freq over symbolic matrices under a forking comparison policy (the wrapper null detection, sort and filter decide on symbolic values) with ARPACK/LAPACK contract stubs; z3 proves residual, zeros, pairing per column and positivity/ascending order after sort on every path; exceptions and residual failures replayed on the real function with scipy',
     'Bounded symbolic verification of the wrapper code: sizes 6..9, null patterns, num_eigvalues 1..25, sparse/dense, sort on/off, reduced_dof (condensed block), second analysis after a redefinition: K v = omega^2 M v on the full size under the solver contract, zeros on removed amplitudes, ascending positive frequencies after sort, no exception for admissible inputs.',
-    'ARPACK/LAPACK numerics are contract stubs; rounding in the sort key not modelled; complex (aerodynamic) spectra outside; known finding: reduced_dof is an approximation by design.',
+    'ARPACK/LAPACK numerics are contract stubs; rounding in the sort key not modelled; complex (aerodynamic) spectra outside; known finding: reduced_dof is an approximation by design. Supplementary, not deciding: float twins of the wrapper configurations on the real route; a source audit (ast) of every call of freq in the package for an unconditional reduced_dof=True.',
     'DESIGN.md section 4 C06')
 CHECKS['C07'] = (OTHER, 'symbolic execution of the real Panel.calc_fext / PanelAssembly.calc_fext over de-Cythonised fg and fuvw (virtual work against the package own displacement recovery and against the oracle basis), and of sparse.solve / analysis.static / Analysis.static with an spsolve contract stub; z3 qfnra-nlsat; exact-rational replay',
     'Bounded symbolic verification for all force positions, components, load factors, amplitudes, flags, geometry: load vector = virtual work of the loads (constant forces unscaled, incrementable ones scaled), assembly slices at the panel ranges, K c = f on active rows and c = 0 on null columns for null patterns of sizes 4..6.',
-    'spsolve is a contract stub; bay load vectors are claimed with C13; linearity in the loads is a corollary.',
+    'spsolve is a contract stub; bay load vectors are claimed with C13; linearity in the loads is a corollary. Supplementary, not deciding: float twins of the solve configurations on the real route (incl. a second system with the same diagonal).',
     'DESIGN.md section 4 C07')
 CHECKS['C13'] = (OTHER, 'relational symbolic execution of the real StiffPanelBay / PanelAssembly objects (all bookkeeping) over de-Cythonised panel, connection and stiffener kernels: global result vs re-composition of stand-alone component results at independently derived ranges; skin partition under the C10 additivity lemma; z3 qfnra-nlsat; exact-rational replay',
     'Bounded symbolic verification of the assembly layers for bays with 0..2 (thorough 4) stiffeners of the three kinds in any order, with/without base, assemblies of 2-3 panels of unequal series orders: size = sum of component sizes, k0/kG0/kM (and kT, fint, fext, recovered fields) = sum of component results at their ranges + connection terms, skin cut at 1..2 (4) symbolic positions leaves k0,kG0,kM unchanged; results after a re-definition of the assembly follow the current definition; stiffener contributions = Hessians of their own energies (BladeStiff1D flange beam energy, BladeStiff2D / TStiff2D connection mismatch energies) and the pointwise PSD condition of the flange form (refuted for coupled flange laminates: recorded finding).',
